@@ -21,7 +21,7 @@ static inline void vt_open(const char *path)
 {
 	vt_out = fopen(path, "w");
 	if (!vt_out) { perror(path); exit(2); }
-	setvbuf(vt_out, NULL, _IOFBF, 1 << 20);
+	setvbuf(vt_out, NULL, _IOLBF, 1 << 16); /* line buffered: a crash loses nothing */
 }
 static inline void vt_close(void) { if (vt_out) { fflush(vt_out); fclose(vt_out); vt_out = NULL; } }
 static inline void vt_flush(void) { if (vt_out) fflush(vt_out); }
